@@ -275,11 +275,21 @@ def remainingNames (m : Mol) : List String :=
 def remainingPart (m : Mol) : List Line :=
   (remainingNames m).flatMap (fun n => [Line.sect n] ++ linesOf m.pre n ++ linesOf m.post n ++ [Line.blank])
 
-def write (m : Mol) : Except Err (List Line) := do
-  -- `max()` over an empty atom sequence raises ValueError
-  if m.atoms.isEmpty then throw .valueerror
+/-- an atom the `[ atoms ]` columns can express: not (mass present and charge absent) -/
+def atomOk (a : Atom) : Bool := !(a.mass != "" && a.charge == "")
+
+/-- everything after the `[ atoms ]` section -/
+def writeBody (m : Mol) : Except Err (List Line) := do
   let secs ← (sortInteractions m).mapM (writeSection m (correspondence m) (widthsOf m).idx)
   pure (prelude m ++ atomsPart m ++ secs.flatten ++ remainingPart m)
+
+def write (m : Mol) : Except Err (List Line) :=
+  -- `max()` over an empty atom sequence raises ValueError
+  if m.atoms.isEmpty then .error .valueerror
+  -- raised inside the `[ atoms ]` loop: an atom with a mass but no charge cannot be expressed
+  -- in the positional columns (the mass would be read as the charge); ValueError
+  else if !m.atoms.all atomOk then .error .valueerror
+  else writeBody m
 
 /-! ### tokens of a line, whitespace splitter -/
 
@@ -518,8 +528,6 @@ def sectionOk (tbl : List (String × Arity)) (keys : List Int) (p : String × Li
       (match tbl.lookup (retag p.1) with
        | some ar => ((ar == Arity.firstSkip) == (retag p.1 == "virtual_sitesn")) && p.2.all (interOk keys ar)
        | none => false))
-
-def atomOk (a : Atom) : Bool := !(a.mass != "" && a.charge == "")
 
 def nodupKeys : List Int → Bool
   | [] => true
